@@ -2,7 +2,10 @@ module gosx
 
 go 1.23
 
-require golang.org/x/tools v0.29.0
+require (
+	github.com/danos/encoding v0.0.0-20210701125528-66857fd8c8ea
+	golang.org/x/tools v0.29.0
+)
 
 require (
 	golang.org/x/mod v0.22.0 // indirect
